@@ -627,3 +627,32 @@ async fn remote<P: Protocol>(
         router_tx.send((connection_id, message)).ok();
     }
 }
+
+/// Verification hook (compiled only with `--cfg rumqtt_verif`): an in-memory entry point to
+/// the per-connection task `remote`, so that the whole admission / link / epilogue path runs
+/// over any `AsyncRead + AsyncWrite` stream without a TCP listener.
+#[cfg(rumqtt_verif)]
+pub mod verif_stack {
+    use super::*;
+
+    #[derive(Clone, Default)]
+    pub struct WillHandlers(Arc<Mutex<HashMap<String, Sender<AwaitingWill>>>>);
+
+    pub async fn remote_v4(
+        config: Arc<ConnectionSettings>,
+        router_tx: Sender<(ConnectionId, Event)>,
+        stream: Box<dyn N>,
+        will_handlers: WillHandlers,
+    ) {
+        remote(config, None, router_tx, stream, V4, will_handlers.0).await
+    }
+
+    pub async fn remote_v5(
+        config: Arc<ConnectionSettings>,
+        router_tx: Sender<(ConnectionId, Event)>,
+        stream: Box<dyn N>,
+        will_handlers: WillHandlers,
+    ) {
+        remote(config, None, router_tx, stream, V5, will_handlers.0).await
+    }
+}
